@@ -15,7 +15,8 @@ AbstractHmmTransitionMatrix::AbstractHmmTransitionMatrix(std::shared_ptr<const H
   pij_(static_cast<size_t>(alph->getNumberOfStates()), static_cast<size_t>(alph->getNumberOfStates())),
   tmpmat_(static_cast<size_t>(alph->getNumberOfStates()), static_cast<size_t>(alph->getNumberOfStates())),
   eqFreq_(static_cast<size_t>(alph->getNumberOfStates())),
-  upToDate_(false)
+  upToDate_(false),
+  eqFreqUpToDate_(false)
 {}
 
 AbstractHmmTransitionMatrix::AbstractHmmTransitionMatrix(const AbstractHmmTransitionMatrix& hptm) :
@@ -23,7 +24,8 @@ AbstractHmmTransitionMatrix::AbstractHmmTransitionMatrix(const AbstractHmmTransi
   pij_(hptm.pij_),
   tmpmat_(hptm.tmpmat_),
   eqFreq_(hptm.eqFreq_),
-  upToDate_(hptm.upToDate_)
+  upToDate_(hptm.upToDate_),
+  eqFreqUpToDate_(hptm.eqFreqUpToDate_)
 {}
 
 AbstractHmmTransitionMatrix& AbstractHmmTransitionMatrix::operator=(const AbstractHmmTransitionMatrix& hptm)
@@ -33,6 +35,7 @@ AbstractHmmTransitionMatrix& AbstractHmmTransitionMatrix::operator=(const Abstra
   tmpmat_ = hptm.tmpmat_;
   eqFreq_ = hptm.eqFreq_;
   upToDate_ = hptm.upToDate_;
+  eqFreqUpToDate_ = hptm.eqFreqUpToDate_;
 
   return *this;
 }
